@@ -3,7 +3,7 @@
    Model: Str/StrModel.v (the repaired src/str.c = src/ustr.c, method by method);
    ideal object: Str/StrSpec.v (list of non-NUL bytes). *)
 From LV Require Import Base.Buf Strings.HelpersModel Str.StrModel Str.StrSpec Str.BufLemmas Str.StrOps
-  Str.StrStream Str.StrHistory Str.StrSpecFacts.
+  Str.StrStream Str.StrHistory Str.StrSpecFacts Str.StrNum.
 Local Open Scope Z_scope.
 
 (* Every constructor, every finite list of operations: the model never faults; what it returns
@@ -104,6 +104,12 @@ Proof.
            (conj (strcmp_l_antisym a b) (strcmp_l_trans a b c)))).
 Qed.
 Print Assumptions C01_spec_cmp_order.
+
+(* numeric conversion: the decimal text written for a number is read back as that number *)
+Theorem C01_num_round_trip : forall n,
+  0 <= n <= ulong_max -> exists o, init_from_num n = Ok o /\ to_num o 10 = Ok n.
+Proof. exact num_object_round_trip. Qed.
+Print Assumptions C01_num_round_trip.
 
 (* The stream constructors: the text is the first line / the concatenation of the delivered
    chunks, for streams, lines and schedules of ANY length and any chunk size (the chunk
